@@ -8,16 +8,14 @@ FL = ["-looplimit", "1000000", "-conccap", "300"]
 def jobs(ctx):
     q = ctx.tier == "quick"
     out = []
-    for n in (0, 1, 2, 3, 4) if q else (0, 1, 2, 3, 4, 5, 6):
+    for n in (0, 1, 2, 3, 4) if q else (0, 1, 2, 3, 4, 5):
         out.append(Job(REL, PKG, H, "VerifC22LineColumn", {"n": n}, tag="line/column n=%d" % n, cost=4.0 ** n))
     out.append(Job(REL, PKG, H, "VerifC22LineColumn", {"n": 2}, tag="line/column twin", twin=True))
     for t in range(NT):
-        for back in (((0, 2) if t in (0, 1, 2, 5) else (0,)) if q else (0, 1, 2, 3, 5, 8)):
+        for back in (((0, 2) if t in (0, 1, 2, 5) else (0,)) if q else (0, 2)):
             for ow in ((0,) if q else (0, 1)):
                 out.append(Job(REL, PKG, H, "VerifC22Front", {"tmpl": t, "back": back, "k": 1, "overwrite": ow, "ascii": 0 if back == 0 else 1},
-                               flags=FL, tag="front end tmpl=%d back=%d overwrite=%d" % (t, back, ow), cost=60 + 40 * back, deadline=200 if q else 3000))
-        if not q:
-            out.append(Job(REL, PKG, H, "VerifC22Front", {"tmpl": t, "back": 0, "k": 2, "overwrite": 0, "ascii": 1}, flags=FL, tag="front end tmpl=%d k=2" % t, cost=400, deadline=3000))
+                               flags=FL, tag="front end tmpl=%d back=%d overwrite=%d" % (t, back, ow), cost=60 + 40 * back, deadline=200 if q else 900))
     out.append(Job(REL, PKG, H, "VerifC22Front", {"tmpl": 0, "back": 0, "k": 1, "overwrite": 0, "ascii": 1}, flags=FL, tag="front end twin", twin=True))
     # the compile stages on eight grammar texts with one byte chosen by the solver (regexp escapes and classes, %input, lookahead flags,
     # lexeme attributes, rule operators, options, start conditions)
@@ -40,7 +38,7 @@ def describe(ctx):
                        "attribute, a rule body, an option name, a start-condition list): no panic, no process exit (log.Fatal is a violation), and every reported problem names the file "
                        "and has a range inside the text whose line and column agree with its byte offset. In (3) the byte values are enumerated by the executor through solver "
                        "concretisation; every run is concrete afterwards.",
-        "bounds": {"line/column": "texts of <=4 (6) free bytes, every offset", "front end": "8 templates x hole 0/2 (thorough 0..8) bytes before the end, 1 (2) symbolic bytes",
+        "bounds": {"line/column": "texts of <=4 (5) free bytes, every offset", "front end": "8 templates x hole 0/2 bytes before the end (thorough: every template with both holes, inserted and overwriting), 1 symbolic byte",
                    "compile": "8 templates x 1 free byte (ASCII quick, all 256 values thorough; thorough also with CheckOnly)"},
         "outside": ["grammar texts beyond the templates: the compile stages are pointer-rich whole-program code and are covered only on the eight one-byte families above (and, for valid "
                     "grammars, through the corpora of the other properties); most of their diagnostics and log.Fatal sites are NOT covered", "mutations in the middle of larger grammars"],
